@@ -210,6 +210,18 @@ class Prov(object):
                         ud = call.args()[4] if len(call.args()) > 4 else None
                         if ud is not None and any(x['k'] == 'DeclRefExpr' and x.get('d') == c['d'] for x in ud.walk()):
                             return 'STRICT' if own else 'GLOBAL'
+            # the container is a (reference) parameter of a helper: it holds what its callers' containers hold
+            for i, p_ in enumerate(f.params):
+                if p_.get('d') == c['d'] and depth <= 4:
+                    res, n_sites = None, 0
+                    for g in self.fx.funcs.values():
+                        if not g.full or g.cls != f.cls:
+                            continue
+                        for c2 in g.walk():
+                            if c2.is_call() and c2.get('fn') == f.id and i < len(c2.args()):
+                                n_sites += 1
+                                res = join(res, self.of_container(g, c2.args()[i], depth + 1))
+                    return res if n_sites else 'UNKNOWN'
         return 'UNKNOWN'
 
 
